@@ -834,6 +834,12 @@ def run(ctx):
     ctx.coq_cases("c02m", D.MODEL_HDR_M, mcases, shard=150, label="memo_model_tree_and_text")
     ctx.coq_cases("c02v", D.MODEL_HDR + "\nFrom DD Require Import Diff.DiffEmpty.", vcases, shard=300, label="difflib_opcodes_valid")
 
+    # extension: class instances (attributes) inside the same models - beyond the property's stated domain,
+    # recorded in the evidence file, never a violation (core.Ctx.extension; coq/theories/Obj)
+    with ctx.extension("Obj"):
+        from harness import objcommon as O
+        O.stream_c02(ctx)
+
 
 def replay(ctx, data):
     case = data.get("case", {})
